@@ -728,3 +728,191 @@ pub fn tamper_block(b: &Block, kind: &str, creator: &Key) -> Option<Block> {
     }
     Some(b)
 }
+
+// ---------------------------------------------------------------------------------------------
+// Chain: a real node that builds on its own tip (producer == first validator). Needed whenever
+// the chain is deeper than the genesis period, because rebroadcasts depend on that branch's
+// index, UTXO set and block files.
+
+pub struct Chain {
+    pub seed: u64,
+    pub params: Params,
+    pub cfg: SimConfig,
+    pub keys: Vec<Key>,
+    pub node: Node,
+    pub recs: Vec<BlockRec>,
+    pub ledger: RefLedger,
+    pub tx_counter: u64,
+    pub genesis_supply: u128,
+}
+
+impl Chain {
+    pub fn new(seed: u64, params: Params, prune_after: u64) -> Result<Chain, String> {
+        let mut cfg = SimConfig::new(params.genesis_period, params.heartbeat);
+        cfg.consensus.prune_after_blocks = prune_after;
+        let n_keys = params.n_users + 3;
+        let keys: Vec<Key> = (0..n_keys as u64).map(|i| derive_key(seed, i)).collect();
+        let node = Node::new(&cfg, &keys[0]);
+        let mut c = Chain {
+            seed,
+            params,
+            cfg,
+            keys,
+            node,
+            recs: vec![],
+            ledger: RefLedger::default(),
+            tx_counter: 0,
+            genesis_supply: 0,
+        };
+        let mut txs = vec![];
+        for u in 1..=c.params.n_users {
+            let mut tx = Transaction::default();
+            tx.transaction_type = TransactionType::Issuance;
+            tx.timestamp = TS0 + u as u64;
+            for s in 0..c.params.slips_per_user {
+                let mut o = Slip::default();
+                o.public_key = c.keys[u].pk;
+                o.amount = c.params.base_amount * (1 + s as u64) + u as u64;
+                tx.add_to_slip(o);
+            }
+            tx.sign(&c.keys[0].sk);
+            txs.push(tx);
+        }
+        c.extend_at(txs, false, TS0)?;
+        c.genesis_supply = c.ledger.total();
+        Ok(c)
+    }
+
+    pub fn tip_rec(&self) -> &BlockRec {
+        self.recs.last().unwrap()
+    }
+
+    fn extend_at(&mut self, txs: Vec<Transaction>, gt: bool, ts: u64) -> Result<usize, String> {
+        let parent = self.recs.last().map(|r| r.hash).unwrap_or([0; 32]);
+        let b = build_block(&self.node, &self.keys, BlockSpec { parent, ts, txs, gt, creator: 0 })?;
+        let rec = rec_from_block(&b, true, "chain");
+        let res = self.node.add_block(b);
+        match outcome_of(&res) {
+            AddOutcome::Added { longest: true } => {}
+            other => return Err(format!("own block id {} refused by its producer: {:?}", rec.id, other)),
+        }
+        self.ledger.apply(&rec);
+        self.recs.push(rec);
+        Ok(self.recs.len() - 1)
+    }
+
+    /// build on the own tip with the real Block::create and add it to the own node
+    pub fn extend(&mut self, txs: Vec<Transaction>, gt: bool, dt: u64) -> Result<usize, String> {
+        let ts = self.tip_rec().ts + dt;
+        self.extend_at(txs, gt, ts)
+    }
+
+    /// unspent outputs of `pk` that are still inside the retention window for the next block
+    pub fn spendable(&self, pk: &SaitoPublicKey) -> Vec<SlipRef> {
+        let next_id = self.tip_rec().id + 1;
+        let gp = self.params.genesis_period;
+        self.ledger
+            .unspent_of(pk)
+            .into_iter()
+            .filter(|s| s.block_id + gp >= next_id && s.stype != SlipType::Bound)
+            .collect()
+    }
+
+    pub fn tag(&mut self) -> u64 {
+        self.tx_counter += 1;
+        self.tx_counter
+    }
+
+    /// payment by `user` to `to` with a fee; optional routing path user -> ... -> creator
+    pub fn payment(&mut self, user: usize, to: usize, pick: usize, fee: u64, hops: usize, avoid: &[UtxoKey]) -> Option<(Transaction, SlipRef)> {
+        let mine: Vec<SlipRef> = self.spendable(&self.keys[user].pk).into_iter().filter(|s| !avoid.contains(&s.key())).collect();
+        if mine.is_empty() {
+            return None;
+        }
+        let inp = mine[pick % mine.len()].clone();
+        let fee = fee.min(inp.amount.saturating_sub(1));
+        let out_total = inp.amount - fee;
+        let a = out_total / 3;
+        let mut outs = vec![];
+        if a > 0 {
+            outs.push((self.keys[to].pk, a));
+        }
+        outs.push((self.keys[user].pk, out_total - a));
+        let tag = self.tag();
+        let ts = self.tip_rec().ts + tag;
+        let mut tx = make_tx(&self.keys[user], &[inp.clone()], &outs, ts, &tag.to_le_bytes());
+        // routing path: user -> (router) -> creator
+        if hops >= 1 {
+            let router = &self.keys[self.params.n_users + 2];
+            if hops >= 2 {
+                tx.add_hop(&self.keys[user].sk, &self.keys[user].pk, &router.pk);
+                tx.add_hop(&router.sk, &router.pk, &self.keys[0].pk);
+            } else {
+                tx.add_hop(&self.keys[user].sk, &self.keys[user].pk, &self.keys[0].pk);
+            }
+        }
+        Some((tx, inp))
+    }
+
+    /// a fresh chain object whose node has replayed recs[0..=upto] (for forks deeper than the window)
+    pub fn fork_at(&self, upto: usize) -> Result<Chain, String> {
+        let node = Node::new(&self.cfg, &self.keys[0]);
+        let mut c = Chain {
+            seed: self.seed,
+            params: self.params.clone(),
+            cfg: self.cfg.clone(),
+            keys: self.keys.clone(),
+            node,
+            recs: vec![],
+            ledger: RefLedger::default(),
+            tx_counter: self.tx_counter + 1_000_000,
+            genesis_supply: self.genesis_supply,
+        };
+        for rec in &self.recs[..=upto] {
+            let res = c.node.add_block_bytes(&rec.bytes).ok_or("decode")?;
+            if outcome_of(&res) != (AddOutcome::Added { longest: true }) {
+                return Err(format!("replay refused block id {}", rec.id));
+            }
+            c.ledger.apply(rec);
+            c.recs.push(rec.clone());
+        }
+        Ok(c)
+    }
+}
+
+/// the conservation equation of C02 evaluated on a node, in u128; returns (lhs, parts)
+pub fn node_supply(n: &Node, genesis_period: u64) -> Option<(u128, [u128; 5])> {
+    let tip = n.bc.get_latest_block()?;
+    let mut utxo: u128 = 0;
+    for (k, v) in n.bc.utxoset.iter() {
+        if !*v {
+            continue;
+        }
+        let block_id = u64::from_be_bytes(k[33..41].try_into().unwrap());
+        let amount = u64::from_be_bytes(k[50..58].try_into().unwrap());
+        let stype = k[58];
+        if stype == 9 {
+            continue; // Bound
+        }
+        if block_id < tip.id.saturating_sub(genesis_period) {
+            continue;
+        }
+        utxo += amount as u128;
+    }
+    let parts = [
+        utxo,
+        tip.treasury as u128,
+        tip.graveyard as u128,
+        tip.previous_block_unpaid as u128,
+        tip.total_fees as u128,
+    ];
+    Some((parts.iter().sum(), parts))
+}
+
+pub fn ledger_supply(l: &RefLedger, tip_id: u64, genesis_period: u64) -> u128 {
+    l.utxo
+        .values()
+        .filter(|s| s.stype != SlipType::Bound && s.block_id >= tip_id.saturating_sub(genesis_period))
+        .map(|s| s.amount as u128)
+        .sum()
+}
